@@ -28,7 +28,7 @@ Bits == {0, 1}
 Extra1 == {<<Fld(a, 2, oa, na)>> : a \in Opts, oa \in Bits, na \in Bits}
 Extra2 == {<<Fld(a, 2, oa, na), Fld(b, 3, ob, nb)>> :
              a \in Opts, b \in Opts, oa \in Bits, ob \in Bits, na \in Bits, nb \in Bits}
-Triples == {t \in SUBSET Opts : Cardinality(t) = 3 /\ Cardinality({o.head : o \in t}) = 3}
+Triples == {t \in {{a, b, c} : a \in Opts, b \in Opts, c \in Opts} : Cardinality({o.head : o \in t}) = 3}
 \* the two orders of a triple: any fixed enumeration of it and its reverse
 Seq3(t) == LET a == CHOOSE x \in t : TRUE
                b == CHOOSE x \in t \ {a} : TRUE
@@ -50,6 +50,12 @@ ProfileModels == Prof1 \cup {p \in Prof2 : p[1].head # p[2].head}
 
 MCModels == {<<"catalog", m>> : m \in CatalogModels} \cup {<<"profile", m>> : m \in ProfileModels}
 
-OtherNames == {"name", "zeta", "keywords", "values", "createdAtX"}
+\* a small part of the space that holds a witness for every named deviation (as-built runs)
+WitnessModels == {km \in MCModels : Heads(km[2]) \subseteq {"key", "name", "values", "keywords", "tags"}}
+
+Spec == InitWith(MCModels) /\ [][Next]_vars
+WitnessSpec == InitWith(WitnessModels) /\ [][Next]_vars
+
+OtherNames == {"zeta", "values", "createdAtX"}
 TagIsolation == stage = "model" => TagIsolationFor(mdl[1], mdl[2], OtherNames)
 =============================================================================
